@@ -572,7 +572,7 @@ Section Dyn16.
           pose proof (b_remove_proj k l es0 Hl2 Hc2) as Hp.
           pose proof (basic_remove_ok l k m Hl2 Hm Hsl) as Hb.
           destruct (b_remove c k l es0) as [[l' es']|e].
-          -- destruct Hp as [Hp1 Hp2]. rewrite Hp1 in Hb. destruct Hb as [H1 [H2 H3]]. apply (Hfin _ w Ew).
+          -- destruct Hp as [Hp1 Hp2]. rewrite Hp1 in Hb. destruct Hb as [H1 [H2 H3]]. apply (Hfin _ w eq_refl).
              split; [exact Hm'|]. split; [exact Hv'|]. split; [exact H1|]. split; [exact H2|]. split; [exact Hp2|]. split; [reflexivity|]. split; [exact Hd|exact Hdec].
           -- exfalso. rewrite Hp in Hb. destruct Hb as [_ Hg]. congruence.
         * (* a missing name never converts: the rule holds for the unchanged entries *)
